@@ -211,7 +211,9 @@ class History:
             if Hk is None or not np.array_equal(Hk.obj.qd, o.obj.qd) or sum(o.obj.bond_dims) > 45 or sum(Hk.obj.bond_dims) > 40:
                 return False
             ends = (o.obj.qD[0].copy(), o.obj.qD[-1].copy())
-            ts = float(rng.choice([0, 0, 1e-6]))
+            ts = float(rng.choice([0, 0, 1e-6, 0.02, 0.1]))          # also strong truncation: sector multiplicities of a bond change between two splits of the same bond
+            dtl = 0.1j if rng.random() < 0.6 else 1j * float(rng.uniform(1.0, 2.0))
+            nst = int(rng.integers(1, 4))
             if rng.random() < 0.25 and np.any(o.obj.qd):
                 # the operator in a different, equally valid labelling (shifted physical labels, all-zero labels for a charge-diagonal operator)
                 Hk = Obj('mpo', gen.relabelled_operator(rng, Hk.obj), None, Hk.universe)
@@ -220,7 +222,7 @@ class History:
             if op == 'tdvp1':
                 ptn.integrate_local_singlesite(Hk.obj, o.obj, 0.1j, int(rng.integers(1, 3)), numiter_lanczos=4)
             elif op == 'tdvp2':
-                ptn.integrate_local_twosite(Hk.obj, o.obj, 0.1j, 1, numiter_lanczos=4, tol_split=ts)
+                ptn.integrate_local_twosite(Hk.obj, o.obj, dtl, nst, numiter_lanczos=4, tol_split=ts)
             elif op == 'dmrg1':
                 ptn.calculate_ground_state_local_singlesite(Hk.obj, o.obj, int(rng.integers(1, 3)), numiter_lanczos=4)
             else:
